@@ -25,6 +25,18 @@ CHECKS['C12'] = dict(module='grpcgcp', pkg='grpcgcp', harness='grpcgcp',
 for p in ['C15', 'C16']:
     CHECKS[p] = pool('explicit-state BFS over histories of UpdateMultiEndpoints (valid and invalid option sets), pool connectivity changes, dial failures, RPC probes and Close on the real GCPMultiEndpoint over fake pools; non-trivial = states reached through at least one reconfiguration or connectivity change')
 
+def inputs(module, pkg, harness, rule, instrument=None):
+    return dict(module=module, pkg=pkg, harness=harness, instrument=instrument or [], level='exploration',
+                workers={'quick': 16, 'thorough': 16}, deadline_s={'quick': 240, 'thorough': 1500}, rule=rule)
+
+CHECKS['C11'] = inputs('grpcgcp', 'grpcgcp', 'grpcgcp',
+                       'exhaustive enumeration of (message shape, value, locator) triples against an independent reference extractor; non-trivial = distinct (message, locator) pairs for which the reference yields at least one key or fans out over a non-empty repeated field',
+                       instrument=[{'pkg': 'grpcgcp', 'vgrpc': 'gcp_multiendpoint.go'}, {'pkg': 'grpcgcp/multiendpoint'}])
+
+CHECKS['C17'] = inputs('grpcgcp', 'grpcgcp', 'grpcgcp',
+                       'exhaustive enumeration of ApiConfig values (channel_pool grid x method lists) and JSON renderings/corruptions; non-trivial = distinct configurations for which the effective configuration, the method table or GCPConfig() was compared',
+                       instrument=[{'pkg': 'grpcgcp', 'vgrpc': 'gcp_multiendpoint.go'}, {'pkg': 'grpcgcp/multiendpoint'}])
+
 BFS_NOTE = ('Bounded: depth/alphabet/configurations as reported in the evidence; small scope (<=3 channels/endpoints, 2 keys, <=3 open calls). '
             'Trusted: the instrumenter (vinstr) preserves semantics; the shims for sync/atomic/time/context; the fake environment (ClientConn, virtual clock/timers); the reference model written from the property statement.')
 def _m(engine, technique, text, ref, note=BFS_NOTE):
@@ -40,10 +52,12 @@ META = {
     'C07': _m('history-bfs', T_BFS, 'A reference detector (base instant, counted deadline calls, k, refreshing) decides for every completion whether exactly one replacement must be created; swap, removal and take-over are checked on every state report.', 'DESIGN.md 4/C07'),
     'C08': _m('history-bfs', T_BFS, 'Fallback placement, stand-in stickiness and return-home are checked on every keyed pick of the explored histories, saturated and unsaturated pools.', 'DESIGN.md 4/C08'),
     'C09': _m('history-bfs', T_BFS, 'Round-robin assignment order, waiting only for READY/context end and prompt return are checked over all explored histories (parked picks are threads of the controlled scheduler).', 'DESIGN.md 4/C09'),
+    'C11': _m('input-enum', 'bounded-exhaustive (small-scope) input enumeration on the real function against an independent reference implementation', 'Every message shape with up to 3 (thorough: 4) type constructors, every value of a small menu and every locator of up to 3 segments is evaluated on the real extractor; totality on all of them, agreement with the reference wherever the statement defines the result.', 'DESIGN.md 4/C11', 'Bounded scope as reported; the reference extractor and the list of unspecified cases are the trusted base.'),
     'C12': _m('schedule-dfs', 'stateless model checking of the implementation: exhaustive DFS over thread interleavings under a controlled scheduler (iterative preemption bounding), per-execution oracles', 'Every interleaving within the preemption bound of SendMsg/RecvMsg/CloseSend/Header/Trailer/Context calls, stream creation success/failure and context cancellation is executed on the real wrapper; lost wake-ups show as blocked threads, panics are caught per thread.', 'DESIGN.md 4/C12', 'Bounded: preemption/deviation bounds and thread programs as reported. Trusted: instrumenter, sync/context shims (Cond wake-up order FIFO as in the runtime), fake streamer.'),
     'C13': _m('history-bfs', T_BFS, 'The real multiEndpoint is driven through every history up to the depth bound for every (recovery, delay) class and compared with an independent reference after every transition.', 'DESIGN.md 4/C13'),
     'C14': _m('history-bfs', T_BFS, 'Window, delay and convergence rules; convergence (L1) is decided from every reached state by firing all pending timers to exhaustion.', 'DESIGN.md 4/C14'),
     'C15': _m('history-bfs', T_BFS, 'After every transition every context (none, known, unknown name) x (unary, stream) is probed and must reach the pool of the reference current endpoint; pool set, re-dial, close-once and monitor liveness are checked after every reconfiguration.', 'DESIGN.md 4/C15'),
     'C16': _m('history-bfs', T_BFS, 'Every invalid option kind and dial failure, as constructor argument and at any later position, must be rejected with routing unchanged; Close and failed construction must leave no open pool and no live thread (the scheduler knows every thread the object spawned).', 'DESIGN.md 4/C16'),
+    'C17': _m('input-enum', 'bounded-exhaustive (small-scope) enumeration of configurations and JSON texts on the real parser/balancer/GCPMultiEndpoint against reference expectations', 'Every configuration of the grid is parsed (with well-formed and corrupted JSON renderings), applied through the first resolver update on the real balancer, compared with supplied+defaults, checked for aliasing by mutation, and a second update must change nothing; GCPConfig() deep-copy checks on the real GCPMultiEndpoint.', 'DESIGN.md 4/C17', 'Bounded grid as reported; protojson.Unmarshal into a plain ApiConfig is the oracle for JSON acceptance.'),
     'C20': _m('history-bfs', T_BFS, 'Address lists handed to every connection (creation, update, take-over) are tracked by the fake ClientConn and compared with the latest resolver result after every transition.', 'DESIGN.md 4/C20'),
 }
